@@ -95,6 +95,12 @@ let () =
         if blocks <> blocks_r || arts <> List.map int_of_nat (artic_ref g) then
           Buffer.add_string buf (Printf.sprintf " bcmodel!=ref(bl=%s ar=%s)" (lists blocks_r) (nats "." (artic_ref g)));
         let bounds = List.init (n + 5) (fun k -> z_of_int (k - 2)) in
+        (* the bounded references: icycles_bounded_ref g k is by definition
+           bounded_counts (icycles_ref g) (eff_bound k n) (and ipaths_bounded_ref likewise with
+           n - 1); the full vectors are computed once per graph and shared by all bounds *)
+        let ic_full = lazy (icycles_ref g) and ip_full = lazy (ipaths_ref g) in
+        let icycles_bounded_ref _ k = bounded_counts (Lazy.force ic_full) (eff_bound k (nat_of_int n)) in
+        let ipaths_bounded_ref _ k = bounded_counts (Lazy.force ip_full) (eff_bound k (nat_of_int (max 0 (n - 1)))) in
         (* the model of NumberOfInducedPaths (proved equal to the reference): run for every bound
            when n <= 6 and for the bounds -1, 0, 3 when n = 7 *)
         List.iter (fun k ->
@@ -120,7 +126,7 @@ let () =
         end;
         Buffer.add_string buf (Printf.sprintf " gi=%d bl=%s ar=%s cy=%s ic=%s ip=%s icb=%s ipb=%s"
           (int_of_z (zgirth g)) (lists blocks) (ints "." arts)
-          (nats "." (cycles_ref g)) (nats "." (icycles_ref g)) (nats "." (ipaths_ref g))
+          (nats "." (cycles_ref g)) (nats "." (Lazy.force ic_full)) (nats "." (Lazy.force ip_full))
           (String.concat "/" (List.map (fun k -> nats "." (icycles_bounded_ref g k)) bounds))
           (String.concat "/" (List.map (fun k -> nats "." (ipaths_bounded_ref g k)) bounds)))
       end;
